@@ -162,7 +162,7 @@ def observe_module(module, seed, n_inputs=3, with_text=False):
         ob["text"] = text
     beh = []
     try:
-        lk = LinearIR.Linker(loader=LinearIR.FilesystemModuleLoader())
+        lk = LinearIR.Linker()  # as nslr.py and most hosts do: the linker's own default loader
         lk.AddModule(module)
         prog = lk.Link()
     except Exception as e:
